@@ -505,6 +505,7 @@ def run():
         outside=["JSON format (serde_json)", "header regexes / chrono formatting", "CSV and fdupes writers (never read back)",
                  "file names longer than 3 tokens"])
     ctx = oblig.Ctx()
+    oblig.install_battery(rep, ctx, ["c10_battery"])
     prog = ctx.lib
     mir_path = os.path.join(scratch_root(), "lib.mir")
     open(mir_path, "w").write("\n\n".join(f.text for f in prog.fns.values()))
@@ -593,6 +594,9 @@ def run():
         rep.add(o)
     # the `# Command:` header line is arg::join of the argument vector, read back with arg::split: the quote/split obligations
     # of C17 are obligations of C10 as well (same encoding, same bounds)
+    # reader side beyond the line codec: loop bound of read_paths, format detection of open_report
+    from obligations import C10_reader
+    C10_reader.add(rep, ctx)
     try:
         rep17 = C17.run()
         for o in rep17.obls:
